@@ -675,6 +675,11 @@ func (c *evalCtx) call(x *ast.CallExpr) SV {
 		t := c.typeOfExpr(x.Args[1])
 		ctor := enc.R.ifaceCtor(t)
 		return SV{t: boolT, term: fmt.Sprintf("((_ is %s) %s)", ctor, v.term)}
+	case "samearray":
+		// two slices share their backing array
+		argn(2)
+		a, b := c.eval(x.Args[0]), c.eval(x.Args[1])
+		return SV{t: boolT, term: fmt.Sprintf("(and (= (sl-ref %s) (sl-ref %s)) (not (= (sl-ref %s) 0)))", a.term, b.term, a.term)}
 	case "typednil":
 		// an interface value that holds a nil pointer (x != nil in Go, yet unusable)
 		argn(1)
@@ -690,6 +695,18 @@ func (c *evalCtx) call(x *ast.CallExpr) SV {
 		argn(1)
 		v := c.eval(x.Args[0])
 		return SV{t: boolT, term: fmt.Sprintf("(= %s %s)", v.term, enc.zeroValue(v.t))}
+	case "fresh":
+		// allocated by this function (pre-existing references are >= 0): pointers, maps, slices
+		argn(1)
+		v := c.eval(x.Args[0])
+		switch v.t.Underlying().(type) {
+		case *types.Pointer, *types.Map:
+			return SV{t: boolT, term: fmt.Sprintf("(< %s 0)", v.term)}
+		case *types.Slice:
+			return SV{t: boolT, term: fmt.Sprintf("(< (sl-ref %s) 0)", v.term)}
+		}
+		cfail("fresh() needs a pointer, map or slice")
+		panic("unreachable")
 	case "has":
 		argn(2)
 		m := c.eval(x.Args[0])
